@@ -118,6 +118,11 @@ def main():
     os.environ["VERIF_TIER"] = tier
     t0 = time.time()
     lock()
+    for tag in ("violation", "broken"):
+        try:
+            os.remove(replay_path(pid, tag))
+        except OSError:
+            pass
     out = Outcome()
     mod = importlib.import_module("checks." + pid)
     proof = None
